@@ -133,6 +133,7 @@ type mix struct {
 	pkce                                                                                                                        int // percent of authorisations carrying a challenge
 	pkceBad                                                                                                                     int // percent of redemptions on PKCE grants using a bad verifier variant
 	mutate                                                                                                                      int // percent of introspections presenting a mutated credential
+	extras                                                                                                                      int // percent of authorisations whose session carries extra claims named like reserved introspection members
 }
 
 func genHistory(t *Tape, k *Knobs, m mix, n int) []Step {
@@ -167,6 +168,9 @@ func genHistory(t *Tape, k *Knobs, m mix, n int) []Step {
 			}
 			if a := splitNonEmpty(s.P["aud"]); len(a) > 1 && t.Chance(40) {
 				s.P["grant_aud"] = a[t.Intn(len(a))]
+			}
+			if t.Chance(m.extras) {
+				s.P["extra_reserved"] = "1"
 			}
 			if t.Weighted([]int{m.authz, m.hybrid}) == 1 {
 				hybrid = true
@@ -441,7 +445,7 @@ func init() {
 	// C08: revocation
 	hist("c08", "C08", mix{authz: 10, hybrid: 2, redeem: 14, refresh: 10, refreshOld: 2, introspect: 6, revoke: 24, revokeBad: 12, advance: 6, password: 5, pkce: 10, mutate: 10}, 14, 48, nil)
 	// C09: introspection truthfulness over arbitrary histories
-	hist("c09", "C09", mix{authz: 8, hybrid: 3, implicit: 3, redeem: 12, redeemBad: 2, refresh: 10, refreshOld: 3, introspect: 40, revoke: 5, advance: 8, password: 4, cc: 3, device: 8, jwtBearer: 3, clientChange: 1, pkce: 10, mutate: 25}, 16, 55, func(t *Tape, k *Knobs) {
+	hist("c09", "C09", mix{authz: 8, hybrid: 3, implicit: 3, redeem: 12, redeemBad: 2, refresh: 10, refreshOld: 3, introspect: 40, revoke: 5, advance: 8, password: 4, cc: 3, device: 8, jwtBearer: 3, clientChange: 1, pkce: 10, mutate: 25, extras: 30}, 16, 55, func(t *Tape, k *Knobs) {
 		k.ScopeStrategy = t.Pick([]string{"", "", "exact", "hierarchic"})
 		k.DisableRTValidation = t.Chance(30)
 	})
